@@ -55,7 +55,7 @@ pub fn worker_main(scn: &dyn Scenario, thorough: bool, seed: u64, w: usize, n: u
         limit_address_space(scn.memory_limit());
     }
     amiquip_simrt::install_panic_hook(std::env::var("SIM_PANIC_PRINT").is_ok());
-    let plan = scn.plan(thorough, seed);
+    let plan = scn.plan_view(thorough, seed);
     let out = std::io::stdout();
     let t0 = Instant::now();
     let mut evaluations = 0u64;
@@ -83,7 +83,8 @@ pub fn worker_main(scn: &dyn Scenario, thorough: bool, seed: u64, w: usize, n: u
             let _ = writeln!(o, "B {}", i);
             let _ = o.flush();
         }
-        let spec = &plan[i];
+        let spec = plan.get(i).expect("plan index");
+        let spec = &spec;
         let rep = scn.run_case(spec, false);
         evaluations += 1;
         sim_ns += rep.sim_ns;
@@ -386,7 +387,7 @@ pub fn run_main(scn: &dyn Scenario, thorough: bool, seed: u64, workers: usize) -
     let prop = scn.property();
     let exe = std::env::current_exe().expect("exe");
     let tier = if thorough { "thorough" } else { "quick" };
-    let plan_len = scn.plan(thorough, seed).len();
+    let plan_len = scn.plan_view(thorough, seed).len();
     let workers = workers.min(plan_len.max(1));
     println!("[{}] {} tier: {} cases, {} workers, VERIF_SEED={}", prop, tier, plan_len, workers, seed);
     let wall_cap: u64 = if thorough { 1500 } else { 150 };
@@ -649,8 +650,8 @@ pub fn run_main(scn: &dyn Scenario, thorough: bool, seed: u64, workers: usize) -
     // dead / stuck workers
     for (w, why) in &died {
         let idx = last_begin[*w];
-        let plan = scn.plan(thorough, seed);
-        let spec = idx.and_then(|i| plan.get(i).cloned());
+        let plan = scn.plan_view(thorough, seed);
+        let spec = idx.and_then(|i| plan.get(i));
         let oracle = "process";
         let sig = if why.contains("no progress") { "stuck-in-real-time" } else { "worker-died" };
         if let Some(k) = match_known(&known, prop, oracle, sig) {
